@@ -64,6 +64,13 @@ CHECKS = {
             "(contract probes also with unlimited budgets); each invocation is judged from its own observed context by the statement's "
             "exemption rule; termination under a lowered recursion limit and an event budget.",
             "Executions produced only; breadth blow-ups beyond the event budget are abandoned (counted), watchdog = inconclusive.", "3/C10"),
+    "C11": ("fault_enumeration", "runtime monitoring with fault injection at every hand-over from the library to user code (counting probes), state hook on the in-progress set, follow-up probe calls judged by the model",
+            "A clean run enumerates every control-transfer point of a call (conditions, invariants, captures, error factories, body, "
+            "truth tests, argument reprs, awaits); every point x exception kind (incl. BaseException kinds, CancelledError thrown in "
+            "and coroutine.close() at awaits) is injected; the monitor checks the in-progress set is restored, follow-up calls match "
+            "the fresh-state model exactly, and the injected exception surfaces (or is chained).",
+            "Exhaustive over the points of the generated programs; the set of programs is sampled. Hook: icontract._checkers._IN_PROGRESS "
+            "(read only; if absent the behavioural monitor still decides).", "3/C11"),
     "C13": ("exploration", "runtime monitoring: differential event traces of paired def / async def renderings of the same program under identical probes",
             "Each generated program is rendered twice and driven with identical truth assignments and body scripts; the monitor compares "
             "the probe logs and outcomes of the two renderings and both against the model; async-only condition forms are mixed into "
